@@ -946,7 +946,7 @@ func (m *ServerModel) flowOut(obj types.Object) []types.Object {
 	seen := map[types.Object]bool{obj: true}
 	for i := 0; i < len(out) && i < 16; i++ {
 		o := out[i]
-		decl := m.L.declAt(o.Pos())
+		decl := m.L.declOf(o)
 		if decl == nil {
 			continue
 		}
